@@ -498,15 +498,22 @@ def corr_detect(ctx):
     for (sec, v), line in zip(cases, out):
         t = line.split()
         so, sn, rn = np.array(fl(v[0:6])), np.array(fl(v[6:12])), np.array(fl(v[12:18]))
-        c, a = B._detect_crossing(sec, so, sn, rn, 3)
-        cp, ap = B._detect_crossing.py_func(sec, so, sn, rn, 3)
-        real = (bool(c), F(float(a)))
-        realp = (bool(cp), F(float(ap)))
+        def call(fn):
+            try:
+                with np.errstate(all="ignore"):
+                    c_, a_ = fn(sec, so, sn, rn, 3)
+                a_ = float(a_)
+                return (bool(c_), F(a_)) if math.isfinite(a_) else (bool(c_), "non-finite")
+            except Exception as ex:      # e.g. ZeroDivisionError: the property's code must not raise on a sign pattern
+                return ("raised", type(ex).__name__)
+        real = call(B._detect_crossing)
+        realp = call(B._detect_crossing.py_func)
         tr = None if t[1] == "none" else (t[1] == "1", F(t[2]))
         md = (t[3] == "1", F(t[4]))
-        ctx.case(("detect", sec, tuple(np.sign(fl(v)).astype(int))), nontrivial=real[0], kind="detect:" + sec + (":crossing" if real[0] else ":none"),
+        ctx.case(("detect", sec, tuple(np.sign(fl(v)).astype(int))), nontrivial=real[0] is True,
+                 kind="detect:" + sec + (":crossing" if real[0] is True else (":none" if real[0] is False else ":raised")),
                  sample={"section": sec, "state_old": fl(v[0:6]), "state_new": fl(v[6:12]), "rhs_new": fl(v[12:18]),
-                         "crossed": real[0], "alpha": float(real[1])})
+                         "crossed": real[0], "alpha": str(real[1])})
         if realp != real:
             bad_py.append((sec, v, real, realp))
         if tr != real:
@@ -531,7 +538,7 @@ def corr_detect(ctx):
         by_sec = sorted({b[0] for b in bad_md})
         broken(ctx, "correspondence:detect_crossing:model",
                "%d of %d cases (sections %s): _detect_crossing differs from the documented-direction model; first: section %s state_old %r state_new %r rhs_new %r code %r model %r"
-               % (len(bad_md), len(cases), ",".join(by_sec), sec, fl(v[0:6]), fl(v[6:12]), fl(v[12:18]), (real[0], float(real[1])), (md[0], float(md[1]))))
+               % (len(bad_md), len(cases), ",".join(by_sec), sec, fl(v[0:6]), fl(v[6:12]), fl(v[12:18]), (real[0], str(real[1])), (md[0], float(md[1]))))
     else:
         ctx.obligations["correspondence:detect_crossing:model"] = True
     return bad_md
@@ -610,7 +617,11 @@ def corr_step(ctx):
             x[IDX6[c["sec"]]] = c["X"][-1][IDX6[c["sec"]]] if c["X"][-1][IDX6[c["sec"]]] != 0 else F(1)
             c["X"].append(x)
             c["R"].append([F(1, 2)] * 6)
-        out, calls = run_step_real(c)
+        try:
+            with np.errstate(all="ignore"):
+                out, calls = run_step_real(c)
+        except (ZeroDivisionError, FloatingPointError) as ex:
+            out, calls = (-1, 0.0, 0.0, 0.0, 0.0, 0.0), {"flow": [], "rhs": [], "raised": type(ex).__name__}
         reals.append((out, calls))
         for k in range(len(c["X"]) - 1):
             lines.append("flow %s %s" % (" ".join(fstr(v) for v in c["X"][k]), " ".join(fstr(v) for v in c["X"][k + 1])))
@@ -629,12 +640,14 @@ def corr_step(ctx):
             model = None
         else:
             model = [F(v) for v in t[1:6]]
-        realv = None if flag == 0 else [F(float(v)) for v in real[1:6]]
+        realv = None if flag != 1 else [F(float(v)) for v in real[1:6]]
         ctx.case(("step", c["sec"], tuple(float(x[IDX6[c["sec"]]]) for x in c["X"]), c["max_steps"]), nontrivial=flag == 1,
                  kind="step:" + c["sec"] + (":return@%d" % (len(calls["flow"]) - 1) if flag else ":none"),
                  sample={"section": c["sec"], "section_values": [float(x[IDX6[c["sec"]]]) for x in c["X"]],
                          "max_steps": c["max_steps"], "returned": flag == 1})
-        if flag == 0 and any(float(v) != 0.0 for v in real[1:6]):
+        if flag == -1:
+            bad.append((c, real, model, "the code raised " + calls.get("raised", "?")))
+        elif flag == 0 and any(float(v) != 0.0 for v in real[1:6]):
             bad.append((c, real, model, "failure does not return zeros"))
         elif realv != model:
             bad.append((c, real, model, "differs"))
@@ -645,7 +658,7 @@ def corr_step(ctx):
         broken(ctx, "correspondence:poincare_step",
                "%d of %d scripted runs of _poincare_step differ from the model (%s); first: section %s seed %r dt %s max_steps %d chain(section coordinate) %r: code %r model %r"
                % (len(bad), len(cases), why, c["sec"], fl(c["seed"]), c["dt"], c["max_steps"],
-                  [float(x[IDX6[c["sec"]]]) for x in c["X"]], [float(v) for v in real[1:6]] if int(real[0]) else None,
+                  [float(x[IDX6[c["sec"]]]) for x in c["X"]], [float(v) for v in real[1:6]] if int(real[0]) == 1 else None,
                   None if model is None else fl(model)))
     else:
         ctx.obligations["correspondence:poincare_step"] = True
@@ -911,8 +924,24 @@ def energy_of(C, s):
     return float(_polynomial_evaluate(C["H"], to6(s).astype(np.complex128), C["clmo"]).real)
 
 
-def compute_map(C, h0, sec, dt=0.01, order=4, n_iter=3, n_workers=1, strategy="axis_aligned", method="fixed",
-                seed_axis=None, max_steps=2000):
+class MapRaised(Exception):
+    pass
+
+
+def compute_map(C, h0, sec, **kw):
+    """guarded front of `_compute_map`: an exception of the real code while computing a map is reported by the caller"""
+    try:
+        with np.errstate(all="ignore"):
+            return _compute_map(C, h0, sec, **kw)
+    except Exception as ex:
+        import traceback
+        raise MapRaised("CenterManifoldMap.compute(section_coord=%r, %r) raised %s: %s" % (sec, kw, type(ex).__name__, str(ex)[:200]),
+                        {"energy": h0, "section_coord": sec, "options": {k: v for k, v in kw.items()},
+                         "exception": traceback.format_exc()[-600:]})
+
+
+def _compute_map(C, h0, sec, dt=0.01, order=4, n_iter=3, n_workers=1, strategy="axis_aligned", method="fixed",
+                 seed_axis=None, max_steps=2000):
     """a FRESH CenterManifoldMap per call (the map service caches results per options)"""
     from hiten.algorithms.poincare.centermanifold.config import CenterManifoldMapConfig
     from hiten.algorithms.poincare.centermanifold.options import CenterManifoldMapOptions
@@ -1061,6 +1090,8 @@ def numerics(ctx):
     logging.disable(logging.INFO)
     try:
         _numerics(ctx, numba)
+    except MapRaised as ex:
+        ctx.violation("map-computation-raises:" + ex.args[1]["section_coord"], ex.args[0], ex.args[1])
     finally:
         logging.disable(logging.NOTSET)
 
@@ -1124,8 +1155,16 @@ def _numerics(ctx, numba):
     for sec, kw in extra:
         kw = dict(kw)
         e = kw.pop("h0", h0)
-        r = compute_map(C, e, sec, n_iter=3, n_workers=1, **kw)
-        d, w, g = check_map(ctx, C, r, max_pairs=12)
+        rnd = kw.get("strategy") == "random"
+        orig_rng = np.random.default_rng
+        if rnd:     # `_RandomSeeding` draws from an unseeded generator: pin it to the run's seed
+            np.random.default_rng = lambda *a, **k: orig_rng(ctx.seed)
+        try:
+            r = compute_map(C, e, sec, n_iter=3, n_workers=1, **kw)
+        finally:
+            np.random.default_rng = orig_rng
+        # random seeds may sit arbitrarily close to a tangency of the section: no return check for them
+        d, w, g = check_map(ctx, C, r, check_returns=not rnd, max_pairs=12)
         report["%s:%s:order%d:%s:h0=%g" % (sec, kw["method"], kw["order"], kw.get("strategy", "axis_aligned"), e)] = {
             "rows": int(len(r["states"])), "defect": d, "return_error": w}
         if kw.get("strategy") != "random":
